@@ -30,7 +30,7 @@ REFUSE_KINDS = ['for', 'while', 'call', 'chained-compare', 'tuple-target', 'floa
                 'genexp', 'fstring', 'starred', 'tuple-value', 'matmult', 'isnot-compare', 'notin-compare', 'match-singleton',
                 'other-call', 'call-keyword',
                 # FORMS of subset node kinds that are outside the subset (the node kind alone does not tell)
-                'chained-compare-3', 'chained-compare-mixed', 'chained-compare-eq', 'chained-compare-value', 'multi-target',
+                'chained-compare-3', 'chained-compare-mixed', 'chained-compare-eq', 'chained-compare-value', 'multi-target', 'multi-target-3',
                 'aug-pow', 'aug-truediv', 'aug-matmult', 'aug-subscript-target', 'call-starred-arg', 'call-kw-prepare', 'call-get-arg',
                 'call-two-args', 'call-self-method', 'call-on-local', 'const-bytes', 'const-none', 'const-ellipsis', 'const-complex',
                 'attr-nonself', 'attr-nested-target', 'subscript-target', 'slice', 'subscript-index', 'bare-expr-stmt', 'bare-call-stmt',
@@ -275,7 +275,9 @@ def refuse_snippet(kind, rng, g):
         'chained-compare-mixed': [f'if 0 <= {a} != 3 < 9:', f'    {o}.{wr}(1)', 'else:', f'    {o}.{wr}(0)'],
         'chained-compare-eq': [f'if {a} == {a} == 2:', f'    {o}.{wr}(1)', 'else:', f'    {o}.{wr}(0)'],
         'chained-compare-value': [f'{o}.{wr}((1 < {a} < 5) + 2)'],
-        'multi-target': [f'x = y = {a}', f'{o}.{wr}(x + y)'],
+        # the value expression READS an earlier target: a transpiler that accepts `x = y = e` and re-evaluates e per target is visible
+        'multi-target': [f'x = {a} + 1', 'x = y = x + 3', f'{o}.{wr}(x * 16 + y)'],
+        'multi-target-3': [f'x = {a} + 1', 'x = y = z = x * 2 + 1', f'{o}.{wr}((x * 7 + y * 3 + z) & 255)'],
         'aug-pow': [f'x = {a}', 'x **= 2', f'{o}.{wr}(x)'],
         'aug-truediv': [f'x = {a}', 'x /= 2', f'{o}.{wr}(3)'],
         'aug-matmult': [f'x = {a}', 'x @= 2', f'{o}.{wr}(3)'],
